@@ -26,7 +26,7 @@ func init() {
 				is = append(is, mk("operated", "VerifC15Neighbours", cs("kind", k)))
 			}
 			for side := 0; side <= 1; side++ {
-				for arr := 0; arr <= 1; arr++ {
+				for arr := 0; arr <= 2; arr++ {
 					is = append(is, mk("detector", "VerifC15OverlapExt", cs("side", side, "arr", arr)), mk("detector", "VerifC15OverlapSpatial", cs("side", side, "arr", arr)))
 				}
 			}
